@@ -84,7 +84,7 @@ Inductive pc :=
 #[global] Instance pc_eq_dec : EqDecision pc.
 Proof. solve_decision. Defined.
 
-Record kl := mkKl { kl_val : val; kl_err : option err; kl_closed : bool }.
+Record kl := mkKl { kl_val : val; kl_err : option err; kl_closed : bool; kl_key : key (* ghost: the key this lock was created for *) }.
 
 Record thread := mkThread {
   t_pc : pc;
@@ -206,10 +206,12 @@ Definition to_stat_build (c : fcfg) : pc := if f_stat c then PStatBuild else PPu
 Definition fstep (c : fcfg) (s : fstate) (l : flabel) : option fstate :=
   match l with
   | LSpawn t k skip cell =>
-    match threads s !! t, threads s !! bg_tid t with
-    | None, None =>
-        Some (upd_thread s t (mkThread PStart k skip cell 0 None None None false (0, None)) [])
-    | _, _ => None
+    match threads s !! t with
+    | None =>
+        if (t <? 1000)%N   (* thread ids of Get calls; t + 1000 is reserved for the background build of t *)
+        then Some (upd_thread s t (mkThread PStart k skip cell 0 None None None false (0, None)) [])
+        else None
+    | Some _ => None
     end
   | LStep t o =>
     match threads s !! t with
@@ -235,13 +237,13 @@ Definition fstep (c : fcfg) (s : fstate) (l : flabel) : option fstate :=
           | None =>
               let id := next_kl s in
               Some (mkF (<[t := mkThread nxt k (t_skip th) (t_cell th) (t_value th) (t_err th) (Some id) None false (t_res th)]> (threads s))
-                        (<[k := id]> (keyLocks s)) (<[id := mkKl 0 None false]> (kls s)) (id + 1)%N (errs s) (flog s))
+                        (<[k := id]> (keyLocks s)) (<[id := mkKl 0 None false k]> (kls s)) (id + 1)%N (errs s) (flog s))
           end
       | PSyncRead =>
           let ev := [FRead t k (o_rd o)] in
           match o_rd o with
           | RHit v =>
-              let s1 := match t_own th with Some id => set_kl s id (fun x => mkKl v (kl_err x) (kl_closed x)) | None => s end in
+              let s1 := match t_own th with Some id => set_kl s id (fun x => mkKl v (kl_err x) (kl_closed x) (kl_key x)) | None => s end in
               let th' := leave th (v, None) in
               Some (upd_thread s1 t th' (ev ++ (if decide (t_pc th' = PDone) then ret_events t th' else [])))
           | r => Some (upd_thread s t
@@ -272,7 +274,7 @@ Definition fstep (c : fcfg) (s : fstate) (l : flabel) : option fstate :=
               | Some (RFault n) =>
                   match f_variant c with
                   | Legacy =>
-                      let s1 := set_kl s id (fun x => mkKl (kl_val x) (Some (EOther n)) (kl_closed x)) in
+                      let s1 := set_kl s id (fun x => mkKl (kl_val x) (Some (EOther n)) (kl_closed x) (kl_key x)) in
                       Some (upd_thread s1 t (leave th (0, Some (EOther n))) [])
                   | Generic => Some (upd_thread s t (set_pc th PFailCache) [])
                   end
@@ -300,7 +302,7 @@ Definition fstep (c : fcfg) (s : fstate) (l : flabel) : option fstate :=
                 (mkThread PFailCache k (t_skip th) (t_cell th) (t_value th) None (t_own th) (t_wait th) false (t_res th))
                 [FWrite t k (t_value th) (f_update_ttl c) true None])
           | Some n, Some id =>
-              let s1 := set_kl s id (fun x => mkKl (kl_val x) (Some (EWrapped n)) (kl_closed x)) in
+              let s1 := set_kl s id (fun x => mkKl (kl_val x) (Some (EWrapped n)) (kl_closed x) (kl_key x)) in
               Some (upd_thread s1 t (leave th (0, Some (EWrapped n)))
                                 [FWrite t k (t_value th) (f_update_ttl c) true (Some n)])
           | Some n, None => None
@@ -314,7 +316,7 @@ Definition fstep (c : fcfg) (s : fstate) (l : flabel) : option fstate :=
                      else None in
           match hit, t_own th with
           | Some e, Some id =>
-              let s1 := set_kl s id (fun x => mkKl (kl_val x) (Some e) (kl_closed x)) in
+              let s1 := set_kl s id (fun x => mkKl (kl_val x) (Some e) (kl_closed x) (kl_key x)) in
               Some (upd_thread s1 t (leave th (nil_or_val c th, Some e)) [FErrHit t k e])
           | Some e, None => None
           | None, _ => Some (upd_thread s t (set_pc th PCtxSync) [])
@@ -367,7 +369,7 @@ Definition fstep (c : fcfg) (s : fstate) (l : flabel) : option fstate :=
       | PPublish =>
           match t_own th with
           | Some id =>
-              let s1 := set_kl s id (fun x => mkKl (t_res th).1 (t_res th).2 (kl_closed x)) in
+              let s1 := set_kl s id (fun x => mkKl (t_res th).1 (t_res th).2 (kl_closed x) (kl_key x)) in
               match (t_res th).2 with
               | None => Some (upd_thread s1 t (set_pc th PRelease) [])
               | Some _ => Some (upd_thread s1 t (set_pc th (if f_warn c then PWarnLog else (if t_bg th then PRelease else PFallback))) [])
@@ -385,7 +387,7 @@ Definition fstep (c : fcfg) (s : fstate) (l : flabel) : option fstate :=
           | Some id =>
               let th' := mkThread PDone k (t_skip th) (t_cell th) (t_value th) (t_err th) None (t_wait th) (t_bg th) (t_res th) in
               Some (mkF (<[t := th']> (threads s)) (delete k (keyLocks s))
-                        (alter (fun x => mkKl (kl_val x) (kl_err x) true) id (kls s)) (next_kl s) (errs s)
+                        (alter (fun x => mkKl (kl_val x) (kl_err x) true (kl_key x)) id (kls s)) (next_kl s) (errs s)
                         (flog s ++ ret_events t th'))
           | None => None
           end
